@@ -105,6 +105,9 @@ def build_events(case):
             # a tau that (almost) never decays reaches the stage with an infinite / astronomically large decay length
             if e.get("far") is not None and not (0.0 <= alt[i] <= 10.0):
                 length[i] = e["far"]
+            # ... and whatever the earlier stages computed for it may be non-finite as a whole row
+            if e.get("bad_energy") is not None and not (0.0 <= alt[i] <= 10.0):
+                E[i] = e["bad_energy"]
     return beta, alt, length, theta, L, E
 
 
@@ -181,13 +184,15 @@ def body_chain(case):
     require(bool(np.all(F[~inside] == 0.0)), f"decay outside [0,10] km gives a non-zero field: alt={alt[~inside].tolist()} -> max |E| {np.abs(F[~inside]).max() if (~inside).any() else 0}")
     cand, cancel_all = reference_fields(case, beta, alt, length, theta, L, E, c)
     for i in range(n):
+        if not inside[i]:
+            continue  # exactly zero (checked above); its other columns may hold anything, incl. non-finite values
         ok = False
         for ref in cand[i]:
             # a field far down a Gaussian tail, exp(-x), carries the relative error x * (1e-9 of the view angle)
-            depth = 1.0 + np.abs(np.log(np.maximum(np.abs(ref), 1e-300) / max(E[i] * 1e-7, 1e-300)))
+            depth = 1.0 + np.abs(np.log(np.maximum(np.abs(ref), 1e-300) / max((E[i] if math.isfinite(E[i]) else 1.0) * 1e-7, 1e-300)))
             cancel = cancel_all[i]
             # (fields below 1e-30 of the typical peak field, ~1e-6 V/m x E/10, are zero for every purpose of the SNR sum)
-            if np.all(np.abs(F[i] - ref) <= (1e-6 * depth + cancel) * np.abs(ref) + 1e-36 * E[i]):
+            if np.all(np.abs(F[i] - ref) <= (1e-6 * depth + cancel) * np.abs(ref) + 1e-36 * (E[i] if math.isfinite(E[i]) else 1.0)):
                 ok = True
                 break
         if not ok:
@@ -200,6 +205,31 @@ def body_chain(case):
     s_ref = orad.snr(F, lo, hi, case["det"], case["nants"], case["gain"])
     require(bool(np.all(np.abs(S - s_ref) <= 1e-11 * np.abs(s_ref) + 1e-300)), f"SNR {S[:3].tolist()} differs from the own voltage/noise formula {s_ref[:3].tolist()} ({what})")
 
+    # every event array in single precision (FITS 'E' columns): the fields and SNRs of the same numbers in double
+    # precision, to single-precision accuracy, and in particular finite
+    if case.get("f32"):
+        a32 = [np.asarray(a, dtype=np.float32) for a in (beta, alt, length, theta, L, E)]
+        a64 = [a.astype(np.float64) for a in a32]
+        ok32 = np.isfinite(a64[5]) & np.isfinite(a64[2])  # (1e300 etc. are inf in single precision: such rows only have to be zero / finite)
+        with cut(f"EASRadio + calculate_snr with float32 event arrays ({what})"):
+            F32, S32 = run_radio(case, *a32, c)
+            F64, S64 = run_radio(case, *a64, c)
+        in32 = (a64[1] >= 0.0) & (a64[1] <= 10.0)
+        # (a generated out-of-range altitude next to the limit may round INTO the range in single precision; such a row is
+        # not a consistent event - its decay length belongs to another altitude - and is left out)
+        ok32 = ok32 & (in32 == inside)
+        require(bool(np.all(np.isfinite(S32[(ok32 & in32) | (~in32 & ~inside)]))) and bool(np.all(np.isfinite(F32[(ok32 & in32) | (~in32 & ~inside)]))), f"float32 event arrays give a non-finite field or SNR ({what}): SNR {S32[~np.isfinite(S32)][:3].tolist()} where float64 arrays of the same numbers give {S64[~np.isfinite(S32)][:3].tolist()}")
+        require(bool(np.all(F32[~in32] == 0.0)), "float32 event arrays: decay outside [0,10] km gives a non-zero field")
+        in32 = in32 & inside
+        sel = ok32 & in32 & np.isfinite(S64)
+        bad = np.abs(S32[sel] - S64[sel]) > 2e-3 * np.abs(S64[sel]) + 1e-300
+        # (fields far down a Gaussian tail amplify the input rounding by the depth of the tail: only events whose SNR is
+        # within 1e-6 of the batch's largest are compared in value)
+        big = np.abs(S64[sel]) >= 1e-6 * (np.max(np.abs(S64[sel])) if sel.any() else 0.0)
+        require(not (bad & big).any(), f"float32 event arrays give SNR {S32[sel][bad & big][:3].tolist()}, the same numbers as float64 arrays {S64[sel][bad & big][:3].tolist()} ({what})")
+        labels_f32 = True
+    else:
+        labels_f32 = False
     # metamorphic relations with identical random numbers
     kfac = case["kfac"]
     with cut("energy scaled"):
@@ -245,6 +275,10 @@ def body_chain(case):
         F6, _ = run_radio(dict(case, band=[lo, hi2]), beta, alt, length, theta, L, E, c)
         require(F5.shape == F6.shape and F5.tobytes() == F6.tobytes(), f"a live EASRadio object re-tuned from {lo}-{hi} MHz to {lo}-{hi2} MHz returns fields of shape {F5.shape}; a fresh object for {lo}-{hi2} MHz returns {F6.shape}" + ("" if F5.shape != F6.shape else " with different values"))
     labels = set()
+    if labels_f32:
+        labels.add("float32_event_arrays")
+    if np.any(~np.isfinite(E)):
+        labels.add("non_finite_energy_out_of_range")
     if hi2 != hi:
         labels.add("live_object_retuned")
         labels.add("live_edit_" + level)
@@ -336,6 +370,7 @@ event = st.fixed_dictionaries(
         "right_angle": st.one_of(st.none(), st.none(), st.none(), st.integers(-3, 3)),
         "override": override,
         "far": st.sampled_from([None, None, float("inf"), 1e305, 1e200]),
+        "bad_energy": st.sampled_from([None, None, float("inf"), float("nan"), 1e300]),
     }
 )
 band = st.one_of(
@@ -363,6 +398,7 @@ SUBCHECKS = [
                 "hi2": st.integers(1, 165).map(lambda k: 10 * k),
                 "edit_level": st.sampled_from(EDIT_LEVELS),
                 "io_fault": st.booleans(),
+                "f32": st.booleans(),
             }
         ),
         body_chain,
@@ -385,4 +421,4 @@ SUBCHECKS = [
 # the same oracles in interpreters started with -O / -OO (see core.env_variant)
 from ..core import env_variant  # noqa: E402
 
-SUBCHECKS.append(env_variant(__name__, next(sc for sc in SUBCHECKS if sc.name == "chain")))
+SUBCHECKS.append(env_variant(__name__, next(sc for sc in SUBCHECKS if sc.name == "chain"), cases=(6, 10)))
